@@ -56,7 +56,10 @@ def plan(tier, seed):
     cfgs = [dict(kind='bdd', nmax=5, init_vars=4),
             dict(kind='bdd', nmax=4, init_vars=3),
             dict(kind='bdd', nmax=6, init_vars=6, semantic=False),
-            dict(kind='bdd', nmax=3, init_vars=2)]
+            dict(kind='bdd', nmax=3, init_vars=2),
+            # sifting with no / one variable
+            dict(kind='bdd', nmax=2, init_vars=0),
+            dict(kind='bdd', nmax=2, init_vars=1)]
     cfgs_ar = [dict(kind='autoref', nmax=5, init_vars=4),
                dict(kind='autoref', nmax=4, init_vars=4)]
     k = 16 if tier == 'thorough' else 8
